@@ -332,6 +332,30 @@ def main():
                      and len(t.comparators[0].args) == 1 and isinstance(t.comparators[0].args[0], ast.Attribute)
                      and t.comparators[0].args[0].attr == "_data")
     lines.append(f"Definition TO_DICT_ID_TEST_IS_NE_HASH : bool := {'true' if id_ok else 'false'}.")
+    # statement skeleton of Node.to_dict: 0 res = {...}; 1 if <id test>: res["data_id"] = ...; 2 res = call_mapper(...);
+    # 3 if self._children: ...; 4 return res; 9 anything else (doc strings skipped)
+    skel = []
+    for st in td.body:
+        if isinstance(st, ast.Expr) and isinstance(st.value, ast.Constant) and isinstance(st.value.value, str):
+            continue
+        if isinstance(st, (ast.Assign, ast.AnnAssign)) and isinstance(st.value, ast.Dict):
+            skel.append(0)
+        elif isinstance(st, ast.If) and any(isinstance(b, ast.Assign) and isinstance(b.targets[0], ast.Subscript)
+                                            and isinstance(b.targets[0].slice, ast.Constant) and b.targets[0].slice.value == "data_id"
+                                            for b in st.body):
+            skel.append(1)
+        elif (isinstance(st, ast.Assign) and isinstance(st.value, ast.Call) and isinstance(st.value.func, ast.Name)
+              and st.value.func.id == "call_mapper"):
+            skel.append(2)
+        elif (isinstance(st, ast.If) and isinstance(st.test, ast.Attribute) and st.test.attr == "_children"
+              and any("children" == getattr(getattr(n, "slice", None), "value", None) for b in st.body for n in ast.walk(b)
+                      if isinstance(n, ast.Subscript))):
+            skel.append(3)
+        elif isinstance(st, ast.Return):
+            skel.append(4)
+        else:
+            skel.append(9)
+    lines.append("Definition TO_DICT_SKELETON : list Z := [" + "; ".join(f"{k}%Z" for k in skel) + "].")
     fdn = func_def(ncls, "from_dict")
     found = []
     for n in ast.walk(fdn):
